@@ -385,8 +385,8 @@ Definition run_rt_resp (a : list val) : val :=
 (* C02 (a): a well-formed response encodes to the specified ADU, parses to exactly its fields and
    re-encodes to the same bytes *)
 Definition verdict_rt_resp_C02 (a : list val) (out : val) : N :=
-  match a, out with
-  | [VI which; VI fr; pv; VI tid], VL [VB enc; po] =>
+  match a with
+  | [VI which; VI fr; pv; VI tid] =>
       match wf_sresp pv with
       | Some sp =>
           let adu := if zN fr =? 0 then adu_tcp (zN tid) (sresp_unit sp) (rpdu sp) else adu_rtu (sresp_unit sp) (rpdu sp) in
@@ -394,15 +394,19 @@ Definition verdict_rt_resp_C02 (a : list val) (out : val) : N :=
           (* the parsers' minimum sizes: an empty payload is not a well-formed reply *)
           let nonempty := match sp with SPBytes fc _ d => if is_coil_fc fc then (1 <=? length d)%nat else (2 <=? length d)%nat | _ => true end in
           if negb nonempty then NOT_JUDGED else
-          if negb (list_eqb enc adu) then VIOLATES else
-          match po with
-          | VL [VI 0%Z; VI t; pr; VB re] =>
-              if Z.eqb t wtid && val_eqb pr pv && list_eqb re enc then HOLDS else VIOLATES
-          | _ => VIOLATES
+          match out with
+          | VL [VB enc; po] =>
+              if negb (list_eqb enc adu) then VIOLATES else
+              match po with
+              | VL [VI 0%Z; VI t; pr; VB re] =>
+                  if Z.eqb t wtid && val_eqb pr pv && list_eqb re enc then HOLDS else VIOLATES
+              | _ => VIOLATES
+              end
+          | _ => VIOLATES       (* the encoder panicked on a well-formed response *)
           end
       | None => NOT_JUDGED
       end
-  | _, _ => NOT_JUDGED
+  | _ => NOT_JUDGED
   end.
 
 (* fc17: args [which; fr; tid; u; id; run; add; layout] layout 0 = specification (count covers
@@ -487,6 +491,7 @@ Definition run_coils_to_bytes (a : list val) : val :=
 Definition verdict_coils_C01 (a : list val) (out : val) : N :=
   match a, out with
   | [VB cs], VB b => if list_eqb b (pack_coils (bools_of cs)) then HOLDS else VIOLATES
+  | [VB _], _ => VIOLATES       (* packing a coil list never fails *)
   | _, _ => NOT_JUDGED
   end.
 
